@@ -38,6 +38,7 @@ SIG_EXTRA = {
     "sp->sp": ([((0, 1), 1), ((0, 0), 2)], [((0, 0), 1), ((0, 1), 2)]),  # scalar<->pseudoscalar has no M=3 filter: unstable for ResNets
     "t2": ([((2, 0), 1), ((0, 0), 1)], [((2, 0), 1), ((1, 0), 2)]),
     "out-unsorted": ([((0, 0), 1), ((1, 0), 1)], [((1, 0), 2), ((0, 1), 1), ((0, 0), 1)]),
+    "s->pv": ([((0, 0), 2)], [((0, 1), 1), ((1, 0), 2)]),  # (0,1) is not reachable from a scalar in one layer
 }
 MD.SIGS2.update(SIG_EXTRA)
 
@@ -47,12 +48,12 @@ def _dims(d):
     return {
         "cls": ["ResNet", "DilResNet", "UNet", "ConvBlock", "ConvBlockPre"],
         "equivariant": [True, False],
-        "sig": ["sv", "v", "svp", "pv", "vs-unsorted", "s", "s->v", "v->sp", "sp->sp", "t2", "out-unsorted"],
+        "sig": ["sv", "v", "svp", "pv", "vs-unsorted", "s", "s->v", "v->sp", "sp->sp", "t2", "out-unsorted", "s->pv"],
         "depth": [2, 1],
         "size": [1, 2],
         "num_conv": [1, 2],
         "act": ["gelu", "relu", "tanh"],
-        "norm": [False, True],
+        "norm": [False, True, "batch"],
         "preact": [False, True],
         "bias": ["auto", "mean", False, True, "scalar"],
         "kernel": [3, 1],
@@ -73,6 +74,8 @@ def _normalise(c):
         c["size"], c["num_conv"], c["depth"] = 1, 1, 2
     if c["cls"] == "DilResNet":
         c["num_conv"] = 1
+    if c["norm"] == "batch" and (c["equivariant"] or c["cls"] not in ("UNet", "ConvBlock", "ConvBlockPre")):
+        c["norm"] = True  # batch norm exists only for the conventional U-Net / conv block
     if c["equivariant"]:
         c["kernel"] = 3
     else:
